@@ -727,6 +727,13 @@ func splitProps(s string) (props []string, rest string) {
 // A name that already contains a '/' or whose qualifier is a known stdlib-style path is left alone.
 func expandFuncKey(name, pkg string) string {
 	name = strings.TrimSpace(name)
+	if strings.HasPrefix(name, "dynamic:") {
+		rest := strings.TrimPrefix(name, "dynamic:")
+		if strings.Contains(rest, "/") || strings.Contains(rest, ".") {
+			return name
+		}
+		return "dynamic:" + pkg + "." + rest
+	}
 	qualify := func(id string) string {
 		if strings.Contains(id, "/") || strings.Contains(id, ".") {
 			return id
@@ -883,6 +890,10 @@ func (db *ContractDB) ParseFile(path string, pkgPath string) error {
 				break
 			}
 			for _, part := range splitTop(t, ',') {
+				if pt := strings.TrimSpace(part); pt == "all" || pt == "*" {
+					cur.ModAll = true // `modifies all, Ghost1, Ghost2`: the heap and the listed ghost variables
+					continue
+				}
 				e, err := parseExprString(part)
 				if err != nil {
 					return fail(d, err)
